@@ -171,7 +171,8 @@ type FnCtx struct {
 	heapTok     map[string]Term
 	assertAct   map[int]string // assumption index -> name of the invariant/lemma/precondition it belongs to
 	atPrev      map[string]string
-	inl         *inlFrame                  // non-nil while a function literal is executed in place
+	inl         *inlFrame // non-nil while a function literal is executed in place
+	atAny       []*ssa.BasicBlock
 	bindIter    *loopInfo                  // loop whose body clause is being bound
 	exitSt      map[*loopInfo]*State       // state in which a loop was last left (for atexit/passed)
 	iterEntFlag map[*loopInfo]map[int]Term // value of iteration-local flags on entry to an inner loop
@@ -200,6 +201,7 @@ type candidate struct {
 	entry Term // hyp => goal at entry
 	back  []Term
 	alive bool
+	sites []*ssa.BasicBlock // blocks at which the entry / back-edge goals are stated (for slicing)
 }
 
 func newFnCtx(L *Loaded, u *Universe, fn *ssa.Function, spec *FuncSpec, specs *SpecSet) *FnCtx {
@@ -292,6 +294,19 @@ func (c *FnCtx) assume(t Term) {
 // relevant reports whether an assumption made while executing block `from` can
 // matter for an obligation at block `at`: only if `from` reaches `at` in the
 // acyclic CFG (back edges removed). Dropping the others is always sound.
+// relevantAny: relevant for `at` or for any block of the current multi-site query.
+func (c *FnCtx) relevantAny(from, at *ssa.BasicBlock) bool {
+	if len(c.atAny) == 0 {
+		return c.relevant(from, at)
+	}
+	for _, b := range c.atAny {
+		if b == nil || c.relevant(from, b) {
+			return true
+		}
+	}
+	return false
+}
+
 func (c *FnCtx) relevant(from, at *ssa.BasicBlock) bool {
 	if from == nil || at == nil || from == at {
 		return true
